@@ -97,6 +97,10 @@ FreeRule(e) ==
 \* an Init()-only Condition is initialised but empty: nothing may panic on it
 InitOnlyRule(e) == (e.mode = "initonly") => (e.panic = "" /\ e.health = "ok")
 
+\* package-level functions (constructors, converters, default-logger setters) and the
+\* Auxiliary map type: any argument, nil maps included -- no panic, results usable
+PkgRule(e) == (e.mode = "pkg") => (e.panic = "" /\ e.health = "ok")
+
 QueryRule(e) ==
   (e.mode = "query" /\ e.method \in Queries) =>
     /\ e.panic = ""
@@ -113,6 +117,7 @@ Rules(e) ==
   (IF InertRule(e) THEN {} ELSE {"InertRule"}) \cup
   (IF FreeRule(e) THEN {} ELSE {"FreeRule"}) \cup
   (IF InitOnlyRule(e) THEN {} ELSE {"InitOnlyRule"}) \cup
+  (IF PkgRule(e) THEN {} ELSE {"PkgRule"}) \cup
   (IF QueryRule(e) THEN {} ELSE {"QueryRule"}) \cup
   (IF AwkwardRule(e) THEN {} ELSE {"AwkwardRule"})
 
@@ -129,7 +134,7 @@ FNext ==
      IF e.ev # "call" THEN UNCHANGED <<bad, unmodelled>>
      ELSE /\ bad' = IF Rules(e) = {} THEN bad
                     ELSE Append(bad, [line |-> l, rules |-> Rules(e), method |-> e.method, typ |-> e.typ])
-          /\ unmodelled' = IF e.method \in Known \/ e.mode = "ronly-arg" THEN unmodelled ELSE unmodelled \cup {e.typ \o "." \o e.method}
+          /\ unmodelled' = IF e.method \in Known \/ e.mode \in {"ronly-arg", "pkg"} THEN unmodelled ELSE unmodelled \cup {e.typ \o "." \o e.method}
 
 FSpec == FInit /\ [][FNext]_fvars
 
